@@ -8,6 +8,9 @@ disqualifying), or the expiry instant simply passes. After every event the same 
   V  verify(text, sig) with the object           expected truthy  <=>  the key is not expired at that moment (key.is_expired)
   X  attach a self-certification that makes the key expired (expiry one day after creation, key created ten days ago)
   R  attach a key revocation signature
+  S  (conditions of the key rather than of its history) the key packet alone, loaded without any identity ("no self-signature"), and a
+     key whose only self-signature was damaged ("no valid self-signature"): the property lists both as disqualifying, so verify() must
+     be falsy. PGPy's PGPKey.self_verified is a stub that answers OK (finding D41): these cases are reported as KNOWN-FINDING.
   T  (one case per object kind) a key with a lifetime that ends two to three seconds from now: verify, wait for the instant, verify
 
 Histories: every sequence over {V, X, R} of length <= 4 with at most one X and one R, on three kinds of object (the public twin, the
@@ -77,6 +80,24 @@ def run_case(case):
         key = fresh(case['alg'], now - timedelta(days=10))
         sig = key.sign('some text')
         wrong = key.sign('other text')
+        if case['history'] == 'S':
+            from specs import indep
+            pk = indep.packets(bytes(key.pubkey))
+            if case['kind'] == 'key packet alone':
+                obj = pgpy.PGPKey.from_blob(pk[0][2])[0]
+                cond = 'no self-signature (the key has %d identities)' % len(obj.userids)
+            else:
+                raw = bytearray(b''.join(p[2] for p in pk))
+                raw[-1] ^= 0x01
+                obj = pgpy.PGPKey.from_blob(bytes(raw))[0]
+                cond = 'its only self-signature %s' % ('does not verify' if not obj.verify(obj.userids[0]) else 'verifies?!')
+            case['condition'] = cond
+            v = obj.verify('some text', sig)
+            case['outcome'] = 'truthy' if v else 'falsy'
+            if v:
+                probs.append('verify() with a key that has %s is truthy' % cond)
+            probs += [p for p in verdict_problems(obj.verify('some text', wrong), 1, False, 'signature over another text') ]
+            return case, probs
         obj = subject(key, case['kind'])
         done = []
         for ev in case['history']:
@@ -112,18 +133,28 @@ def component(tier='quick', seed=0, known=()):
     maxlen = 4 if tier == 'quick' else 6
     cases = [{'alg': a, 'kind': k, 'history': h} for a in ALGS for k in KINDS for h in histories(maxlen)]
     cases += [{'alg': a, 'kind': k, 'history': 'T'} for a in ALGS for k in KINDS]
+    cases += [{'alg': a, 'kind': k, 'history': 'S'} for a in ALGS for k in ('key packet alone', 'only self-signature damaged')]
     cases.sort(key=lambda c: c['history'] != 'T')
     ctx = multiprocessing.get_context('fork')
     with ctx.Pool(16) as pool:
         res = pool.map(run_case, cases, chunksize=1)
-    violations = []
+    from bounded.common import match_known
+    known = [f for f in known if f.get('status', 'known') == 'known']
+    violations, known_hits = [], []
     for case, probs in res:
-        if probs and len(violations) < 5:
+        if not probs:
+            continue
+        f = match_known(dict(case, problems=probs), known)
+        if f is not None:
+            if f not in known_hits:
+                known_hits.append(f)
+        elif len(violations) < 5:
             violations.append({'case': case, 'what': probs[0] + (' (+%d more)' % (len(probs) - 1) if len(probs) > 1 else '')})
     return {'name': 'C17/verdict-along-the-history-of-a-key-object',
             'bound': 'all %d sequences over {verify, attach an expiring self-certification, attach a revocation} of length <= %d (at most one of each '
-                     'attachment, at least one verification) x %d object kinds x %d algorithms, plus the passing of the expiry instant'
+                     'attachment, at least one verification) x %d object kinds x %d algorithms, plus the passing of the expiry instant, plus keys without a '
+                     '(valid) self-signature'
                      % (len(histories(maxlen)), maxlen, len(KINDS), len(ALGS)),
             'cases': len(cases), 'distinct_nontrivial': sum(1 for c in cases if c['history'] == 'T' or ('X' in c['history'] and c['history'].index('X') > c['history'].index('V'))),
             'rule': 'one case = one history on one fresh key; non-trivial = a verification precedes the event that makes the key expired',
-            'exhaustive': True, 'samples': [cases[0], cases[len(cases) // 2], cases[-1]], 'violations': violations, 'known_hits': []}
+            'exhaustive': True, 'samples': [cases[0], cases[len(cases) // 2], cases[-1]], 'violations': violations, 'known_hits': known_hits}
